@@ -5,8 +5,13 @@ pass.EnsureBasePointerCalleeSaved (pass/reg.go) and printer.textsize
 (printer/goasm.go).  Core Lean only.
 
 Go's `int` is modelled as `Int` (no overflow: frames stay far below 2^63).
+The ASSEMBLER however reads the frame size of a TEXT line as an int32
+(`autoffset := int32(p.To.Offset)`, negative → 0; Model/BP `autoffset`): the
+frame that really exists is `asmTextFrame` of the printed text, which is the
+printed number only below 2^31.
 -/
 import AvoVerif.Model.NumText
+import AvoVerif.Model.BP
 namespace Avo.Locals
 
 /-- The bytes `[off, off+size)` relative to the hardware stack pointer. -/
@@ -87,6 +92,12 @@ def parseTextSize : List Char → Option (Nat × Option Nat)
   | [] => none
   | c :: body => if c != '$' then none else parseTextBody body
 
+/-- The frame the assembler allocates for a function whose TEXT line carries
+this size operand: the printed number truncated to int32, negative read as 0
+(cmd/internal/obj/x86/obj6.go). -/
+def asmTextFrame (text : List Char) : Option Int :=
+  (parseTextSize text).map (fun p => Avo.BP.autoffset (p.1 : Int))
+
 /-- `Mem.Asm` of `NewStackAddr(off)`: `off(SP)`, the displacement omitted when 0. -/
 def stackAddrAsm (off : Int) : List Char :=
   (if off != 0 then NumText.intDec off else []) ++ ['(', 'S', 'P', ')']
@@ -117,5 +128,13 @@ def pairwiseB : List Region → Bool
 /-- The property on the implementation's own regions and frame. -/
 def acceptLocals (regions : List Region) (frame : Int) : Bool :=
   regions.all (insideB · frame) && pairwiseB regions && regions.all (disjointB · (bpSlot frame))
+
+/-- The property against the TEXT line as the assembler reads it: the regions
+lie inside (and are disjoint within, and off the BP slot above) the frame that
+is really allocated. -/
+def acceptLocalsText (regions : List Region) (text : List Char) : Bool :=
+  match asmTextFrame text with
+  | none => false
+  | some fr => acceptLocals regions fr
 
 end Avo.Locals
